@@ -1021,6 +1021,14 @@ func (vm *VirtualMachine) reloadCode(main *compiler.Code) *code {
 	delete(vm.loadedCode, main)
 	newWrappedMain := vm.loadCode(main)
 	copy(newWrappedMain.Globals, oldWrappedMain.Globals)
+	// Functions that were loaded earlier share the globals of the main code.
+	// Point them at the new globals, otherwise they would keep reading and
+	// writing the array that was just replaced.
+	for cc, c := range vm.loadedCode {
+		if cc != main && cc.Root() == main {
+			c.Globals = newWrappedMain.Globals
+		}
+	}
 	return newWrappedMain
 }
 
